@@ -273,7 +273,9 @@ func (w *Wrap) Iterator(start, end []byte) (corestore.Iterator, error) {
 	if err != nil {
 		return nil, err
 	}
-	return &wrapIter{w: w, it: it}, nil
+	// the initial positioning is a step of its own: an iterator whose seek failed is invalid from
+	// the start and reports the failure through Error() (as a LevelDB iterator does)
+	return &wrapIter{w: w, it: it, failed: w.call(KIterStep, start)}, nil
 }
 
 func (w *Wrap) ReverseIterator(start, end []byte) (corestore.Iterator, error) {
@@ -284,7 +286,9 @@ func (w *Wrap) ReverseIterator(start, end []byte) (corestore.Iterator, error) {
 	if err != nil {
 		return nil, err
 	}
-	return &wrapIter{w: w, it: it}, nil
+	// the initial positioning is a step of its own: an iterator whose seek failed is invalid from
+	// the start and reports the failure through Error() (as a LevelDB iterator does)
+	return &wrapIter{w: w, it: it, failed: w.call(KIterStep, start)}, nil
 }
 
 type wrapIter struct {
